@@ -443,6 +443,15 @@ func (env *SpecEnv) evalCall(e *SExpr) Val {
 			t = app("s-arr", v.T)
 		}
 		return Val{T: app(">", t, fc.heapGet(env.old, "$alloc", "Int")), Ty: tBool}
+	case "nalloc": // the allocation counter (every allocated reference is <= it)
+		return Val{T: fc.heapGet(env.st(), "$alloc", "Int"), Ty: tInt}
+	case "allocated": // the reference was allocated before the current program point
+		v := arg(0)
+		t := v.T
+		if _, ok := v.Ty.Underlying().(*types.Slice); ok {
+			t = app("s-arr", v.T)
+		}
+		return Val{T: app("<=", t, fc.heapGet(env.st(), "$alloc", "Int")), Ty: tBool}
 	case "arrid":
 		return Val{T: app("s-arr", arg(0).T), Ty: types.Typ[types.Uintptr]}
 	case "off":
@@ -457,6 +466,24 @@ func (env *SpecEnv) evalCall(e *SExpr) Val {
 			env.fail(e, "no map range loop %d seen yet", ord)
 		}
 		return Val{T: app("select", fc.heapGet(env.st(), key, srt), arg(1).T), Ty: tBool}
+	case "fieldmap": // fieldmap(T.f): the whole current heap array of field f (reference -> value), as a ghost array
+		a := e.Args[0]
+		if a.Kind != SField {
+			env.fail(e, "fieldmap(T.f) expected")
+		}
+		var tn string
+		if a.Args[0].Kind == SIdent {
+			tn = a.Args[0].Name
+		} else if a.Args[0].Kind == SField && a.Args[0].Args[0].Kind == SIdent {
+			tn = a.Args[0].Args[0].Name + "." + a.Args[0].Name
+		} else {
+			env.fail(e, "fieldmap(T.f) expected")
+		}
+		t := fc.resolveType(tn, env.homePkg)
+		ot, ft := fc.fieldOwner(t, a.Name, env)
+		key := fc.fieldKey(ot, a.Name)
+		arr := fc.heapGet(env.st(), key, fmt.Sprintf("(Array Int %s)", fc.sortOf(ft)))
+		return Val{T: arr, Ty: types.NewArray(ft, 0)}
 	case "chanclosed": // ghost: has close(ch) been executed
 		return Val{T: app("select", fc.heapGet(env.st(), "$chanclosed", "(Array Int Bool)"), arg(0).T), Ty: tBool}
 	case "sleepers", "woken": // ghost counters of a sync.Cond (number parked / signalled and not yet resumed)
